@@ -32,6 +32,10 @@ FINISH = dict(level="other",
               assumptions=["PostOrderIter yields children before parents with true indices (C18)",
                            "encode_natural/read_natural and the value coders are inverse (C13/C10)"])
 
+# names the codec rules reason about: never spliced away by helper inlining
+CODEC_VOCAB = ("encode_natural", "encode_hash", "encode_value", "write_bit", "write_bits_be", "read_natural", "read_bit", "read_u2", "read_u8",
+               "read_cmr", "read_fail_entropy", "from_bits", "decode", "encode", "decode_node", "encode_node")
+
 NODE_ARITY = {
     "Iden": ("N",), "Unit": ("N",), "Fail": ("N",), "Jet": ("N",), "Word": ("N",), "Witness": ("N",),
     "InjL": ("U", 0), "InjR": ("U", 0), "Take": ("U", 0), "Drop": ("U", 0), "AssertL": ("U", 0), "AssertR": ("U", 1),
@@ -51,6 +55,7 @@ def bits(val, n):
 
 def encoder_table(F, rep):
     f = F.fn(ENC + "encode_node")
+    f = F.inlined(f, CODEC_VOCAB) if f is not None else None
     if f is None:
         rep.anchor("C01.codec", ENC + "encode_node")
         return None
@@ -129,6 +134,7 @@ def encoder_table(F, rep):
 
 def decoder_table(F, rep):
     f = F.fn(DEC + "decode_node")
+    f = F.inlined(f, CODEC_VOCAB) if f is not None else None
     if f is None:
         rep.anchor("C01.codec", DEC + "decode_node")
         return None
@@ -193,7 +199,7 @@ def decoder_table(F, rep):
         idx_reads = [b for b in blocks if f.blocks[b]["t"]["k"] == "call" and f.blocks[b]["t"]["f"].get("name") == "read_natural"]
         for k, o in enumerate(built[1]):
             sites = [cc[6][1] for cc in calls_in(o) if cc[2] == "read_natural" and len(cc) > 6]
-            if sites and (k >= len(idx_reads) or sites != [idx_reads[k]]):
+            if sites and (k >= len(idx_reads) or set(sites) != {idx_reads[k]}):
                 order_ok = False
         rows.setdefault(built[0], set()).add((code, tuple(payload), order_ok))
     return rows
@@ -202,6 +208,7 @@ def decoder_table(F, rep):
 def expression_map(F, rep):
     """DecodeNode variant -> set of constructor methods decode_expression applies (VCC triangle)."""
     f = F.fn(DEC + "decode_expression")
+    f = F.inlined(f, CODEC_VOCAB) if f is not None else None
     if f is None:
         rep.anchor("C01.codec", DEC + "decode_expression")
         return None
